@@ -108,6 +108,7 @@ class Session:
         self.active = True
         self.search_failed = False
         self.ended = False
+        self.models: list = []  # model trees of the messages of sim_history (for cross-message constraints)
         self.last_hist = []
 
 
@@ -118,7 +119,9 @@ class ProtoSimulation:
         self.cfg = cfg
         self.p = proto
         self.text = text
-        self.auto = MsgAutomaton(proto.rules, "start")
+        ext = set(proto.externals)
+        self.auto = MsgAutomaton(proto.rules, "start", invisible=lambda n: n[2] in ext and n[3] in ext)
+        self.pairs = {(n, m["sender"], m["recipient"]) for n, m in proto.msg_types.items()} | set(proto.meta.get("pairs", ()))
         self.clock = VClock(run, max_vtime=float(cfg.get("max_vtime", 900.0)))
         self.session = Session(0)
         self.sessions = [self.session]
@@ -208,9 +211,10 @@ class ProtoSimulation:
         if m is None:
             self.run.violation("C20", "send-discipline", "sent-unknown-message-type", "sent <%s> %r which is not a message type of the spec\n%s" % (mtype, text, self.text))
         else:
-            if m["recipient"] != recipient or m["sender"] != party.party_name:
-                self.run.violation("C20", "send-discipline", "sent-wrong-party", "sent <%s> as %s->%s, grammar says %s->%s\n%s" % (mtype, party.party_name, recipient, m["sender"], m["recipient"], self.text))
+            if (mtype, party.party_name, recipient) not in self.pairs:
+                self.run.violation("C20", "send-discipline", "sent-wrong-party", "sent <%s> as %s->%s, the grammar only has %s\n%s" % (mtype, party.party_name, recipient, sorted(x for x in self.pairs if x[0] == mtype), self.text))
             model = deriv.to_model(message)
+            s.models.append(model)
             err = deriv.check_derivation(self.p, model, mtype)
             if err:
                 self.run.violation("C20", "send-discipline", "sent-not-in-language", "sent %r is not a derivation of <%s>: %s\n%s" % (text, mtype, err, self.text))
@@ -282,7 +286,8 @@ class ProtoSimulation:
         behaviour = "valid"
         if self.fault_mode and sess.fault is None and self.ch.coin(self.cfg.get("fault_rate", 0.25), "fault", "peer-fault"):
             kinds = ["wrong_type", "garbage", "truncated", "silence", "stall_long"]
-            if self.p.msg_types[mtype]["field"] in self.p.field_constraints:
+            fld = self.p.msg_types[mtype]["field"]
+            if fld in self.p.field_constraints or any(fld in ab for ab in self.p.eq_constraints):
                 kinds += ["constraint_violation", "constraint_violation"]
             behaviour = self.ch.pick(kinds, "fault", "fault-kind")
         self.emit(sess, sender, recipient, mtype, behaviour, st)
@@ -292,12 +297,13 @@ class ProtoSimulation:
         em = sess.emitted.setdefault(sender, [])
         valid, ok = True, True
         pre_delay = 0.0
+        _model = None
         if behaviour == "valid" or behaviour == "stall_long":
-            text, _model, ok = P.sample_msg(self.p, ch, mtype, True)
+            text, _model, ok = P.sample_msg_in_history(self.p, ch, mtype, True, sess.models)
             if not ok:
                 behaviour = "constraint_violation"
         if behaviour == "constraint_violation":
-            text, _model, ok2 = P.sample_msg(self.p, ch, mtype, False)
+            text, _model, ok2 = P.sample_msg_in_history(self.p, ch, mtype, False, sess.models)
             ok = ok2
             if ok2:
                 behaviour = "valid"
@@ -337,6 +343,7 @@ class ProtoSimulation:
         em.append(rec)
         if valid and ok:
             sess.sim_history.append((sender, recipient, mtype))
+            sess.models.append(_model)
         else:
             sess.fault = (behaviour, sender, len(em) - 1)
             self.run.fault(behaviour)
@@ -411,6 +418,12 @@ class ProtoSimulation:
         if not viable:
             run.violation("C20", "invalid-prefix", "history-not-a-prefix", "interaction tree %s is not a prefix of any interaction of the spec\n%s" % (hist, self.text))
             return
+        # ---- 2b. the history satisfies every constraint (C20: sends satisfy them, bad remote data is never accepted)
+        msgs = history_tree.protocol_msgs()
+        bad = P.history_violations(self.p, [deriv.to_model(m.msg) for m in msgs if m.msg.symbol.name()[1:-1] in self.p.msg_types])
+        if bad:
+            last_from_fuzzer = bool(msgs) and msgs[-1].sender in self.p.fuzzers
+            run.violation("C20", "history-violates-constraint", "history-violates-constraint:" + ("after-send" if last_from_fuzzer else "after-receive"), "the interaction tree %s violates: %s\n%s" % ([str(m.msg) for m in msgs], bad[:3], self.text))
         # ---- 3. send discipline (C20) --------------------------------------
         tree_sends = [(m.sender, m.recipient, m.msg.symbol.name()[1:-1], str(m.msg)) for m in history_tree.protocol_msgs() if m.sender in self.p.fuzzers and m.recipient in self.p.externals]
         if tree_sends != s.sends:
@@ -462,9 +475,15 @@ class ProtoSimulation:
             extra, missing = sorted(got - want), sorted(want - got)
             kind = "extra-option" if extra and not missing else ("missing-option" if missing and not extra else "options-differ")
             cause = self._forecast_cause(history_tree, extra, missing)
+            if cause == "other" and missing and all(any(g[0] == m[0] and g[2] == m[2] and g[1] != m[1] for g in got) for m in missing):
+                # every missing option has a sibling with the same sender and type but another recipient:
+                # the forecast result is keyed by message symbol only, so the second recipient is lost
+                cause = "same-type-other-recipient"
+            if cause == "other" and P.has_adjacent_nullables(self.p):
+                cause = "adjacent-nullable-items"
             run.violation("C19", "forecast-differs", "%s:%s" % (kind, cause), "history=%s\nforecast offers %s\nthe grammar allows %s\nextra=%s missing=%s\n%s" % (hist, sorted(got), sorted(want), extra, missing, self.p.to_fan(with_parties=False)))
         if complete_got != complete_want:
-            run.violation("C19", "completeness-flag", "complete-flag-%s" % ("set-on-incomplete" if complete_got else "unset-on-complete"), "history=%s complete_trees=%d but the history %s a full interaction\n%s" % (hist, len(fr.complete_trees), "is" if complete_want else "is not", self.p.to_fan(with_parties=False)))
+            run.violation("C19", "completeness-flag", "complete-flag-%s%s" % ("set-on-incomplete" if complete_got else "unset-on-complete", ":adjacent-nullable-items" if P.has_adjacent_nullables(self.p) else ""), "history=%s complete_trees=%d but the history %s a full interaction\n%s" % (hist, len(fr.complete_trees), "is" if complete_want else "is not", self.p.to_fan(with_parties=False)))
         whose = ("F" if any(k[0] in self.p.fuzzers for k in want) else "") + ("E" if any(k[0] in self.p.externals for k in want) else "")
         pend = len(self.io.receive)
         run.state((hash(st) & 0xFFFFFF, whose, min(pend, 3), s.fault[0] if s.fault else None))
